@@ -184,7 +184,7 @@ func (g *gen) nestedRecord(tm *Message, name, ind string) (apply []string) {
 // record, expected post-state computed on a clone.
 func (g *gen) decodeStep(m *Message, f *Field, h2 bool) {
 	if f.Card == "map" {
-		for shape := 0; shape < 5; shape++ {
+		for shape := 0; shape < 7; shape++ {
 			g.decodeStepShape(m, f, h2, shape)
 		}
 		return
@@ -208,6 +208,18 @@ func (g *gen) decodeStepShape(m *Message, f *Field, h2 bool, shapeNo int) {
 	if f.Card == "map" {
 		g.strLen = 4
 		defer func() { g.strLen = saveStr }()
+	}
+	shapeMark := g.sb.Len()
+	if shapeNo >= 5 {
+		// shapes with an unknown sub-record: the value payload stays empty (its decoding is the
+		// business of shapes 0/1), which keeps these harnesses to seconds
+		defer func() {
+			all := g.sb.String()
+			seg := regexp.MustCompile(`nkind := vhChoice\([^)]*\)`).ReplaceAllString(all[shapeMark:], "nkind := 0")
+			g.sb.Reset()
+			g.sb.WriteString(all[:shapeMark])
+			g.sb.WriteString(seg)
+		}()
 	}
 	g.p("func VH_C03_%s_%s%s() {", n, f.GoName, suffix)
 	g.p("\tx := &%s{}", n)
@@ -337,7 +349,17 @@ func (g *gen) decodeStepShape(m *Message, f *Field, h2 bool, shapeNo int) {
 		if f.Val.Kind == "message" && f.Val.MsgName != "" {
 			g.p("\tvalue = &%s{} // a missing value is an empty message in the reference", f.Val.MsgName)
 		}
-		g.p("\tconst shape = %d // 0: k,v  1: v,k  2: k only  3: v only  4: empty", shapeNo)
+		g.p("\tconst shape = %d // 0: k,v  1: v,k  2: k only  3: v only  4: empty  5: k,v,unknown  6: unknown,k,v", shapeNo)
+		g.p("\t// an unknown sub-record inside the entry (field 3 varint / field 9 bytes) is skipped")
+		g.p("\tputUnknown := func() {")
+		g.p("\t\tif vhChoice(\"ukind\", 2) == 0 {")
+		g.p("\t\t\tentry = protowire.AppendTag(entry, 3, protowire.VarintType)")
+		g.p("\t\t\tentry = protowire.AppendVarint(entry, uint64(vhU8(\"uv\")))")
+		g.p("\t\t} else {")
+		g.p("\t\t\tentry = protowire.AppendTag(entry, 9, protowire.BytesType)")
+		g.p("\t\t\tentry = protowire.AppendBytes(entry, vhBytes(\"ub\", 2))")
+		g.p("\t\t}")
+		g.p("\t}")
 		g.p("\tputKey := func() {")
 		g.p("\t\tentry = vhTag(entry, 1, protowire.%sType, \"k\")", wireKind(f.Key))
 		g.decodeWireBounded(f.Key, "entry", "\"kv\"", "\t\t", g.keyLen)
@@ -378,7 +400,16 @@ func (g *gen) decodeStepShape(m *Message, f *Field, h2 bool, shapeNo int) {
 		g.p("\t\tputKey()")
 		g.p("\tcase 3:")
 		g.p("\t\tputVal()")
+		g.p("\tcase 5:")
+		g.p("\t\tputKey()")
+		g.p("\t\tputVal()")
+		g.p("\t\tputUnknown()")
+		g.p("\tcase 6:")
+		g.p("\t\tputUnknown()")
+		g.p("\t\tputKey()")
+		g.p("\t\tputVal()")
 		g.p("\t}")
+		g.p("\t_ = putUnknown")
 		g.p("\trec = vhTag(rec, %d, protowire.BytesType, \"r\")", f.Number)
 		g.p("\trec = vhLenPrefixed(rec, entry, \"e\")")
 		g.p("\tif exp.%s == nil {", f.GoName)
